@@ -343,6 +343,38 @@ func runC03(cx *CheckCtx) {
 				}
 			}
 			cx.decide(good, "verify", m.String(), "returns true only under "+strings.Join(allowed, " ∨ "), m.String()+" can return true without "+strings.Join(allowed, " ∨ "), where)
+			// converse: the answer is false only when every documented account was asked and is absent
+			conv, cwhere := true, ""
+			for _, ex := range a.Exits() {
+				if len(ex.Results) != 1 {
+					continue
+				}
+				st := ex.State.clone()
+				if bv, isC := ex.Results[0].BoolConst(); isC {
+					if bv {
+						continue
+					}
+				} else {
+					for _, l := range a.condLits(ex.Results[0], false, 0) {
+						st.addUnit(a.lt, l)
+					}
+				}
+				if st.bottom {
+					continue
+				}
+				for _, cls := range allowed {
+					found := false
+					for _, l := range witnessLits(a, []string{cls}) {
+						if a.holdsAt(st, -l) {
+							found = true
+						}
+					}
+					if !found {
+						conv, cwhere = false, exitPos(w, ex)+" ("+cls+" not asked)"
+					}
+				}
+			}
+			cx.decide(conv, "verify", m.String()+"/refuses-only-if-none", "answers false only with every documented account ("+strings.Join(allowed, ", ")+") asked and absent", m.String()+" can answer false without having asked for one of the documented accounts: a transaction signed by that account is turned away for some committee sizes", cwhere)
 		}
 	}
 	cx.floor("verify_methods", 3)
